@@ -1,14 +1,15 @@
 (* C02/Property.v — ONLY the property theorems (each closed by a lemma of Proofs*.v) + Print Assumptions.
 
-   Full statement (the goal; proved so far for the stages listed below):
+   Principal theorem (proved, at the end of this file):
      Theorem C02_roundtrip : forall p : ModelP, wf_model p = true ->
        exists q, roundtrip_model p = Ok q /\ norm_model q = norm_model p.
    where roundtrip_model p = ser_model (deser_model p) (Model2.v), norm_* / wf_* are in Norm.v.
-   Stages (bottom-up): dims/shapes/types -> tensors -> value-info -> attributes -> node -> graph/scoping
-   -> function -> model.  What is proved is a real theorem for every input of that message kind;
-   see the `_partial` theorem at the end for what is missing. *)
+   Stages (bottom-up), each a theorem for every input of that message kind: dims/shapes/types -> tensors
+   -> value-info -> attributes -> node -> graph/scoping -> function -> model. *)
 From Coq Require Import ZArith NArith List Bool.
 From IRV Require Import Base.Exn Gen.C02Gen C02.Model C02.Model2 C02.Norm C02.Proofs1 C02.Proofs2 C02.Proofs3.
+From IRV Require Import C02.ProofsFuel C02.ProofsDepth C02.ProofsG14 C02.ProofsG17 C02.ProofsG18.
+From Coq Require Import Lia PeanoNat.
 Import ListNotations.
 Open Scope Z_scope.
 
@@ -143,27 +144,65 @@ Theorem C02_metadata_every_carrier :
 Proof. intros m H. split; [apply ksort_dict_of; exact H | apply dict_of_nodup; exact H]. Qed.
 Print Assumptions C02_metadata_every_carrier.
 
-(* What is proved of C02_roundtrip: every message kind below the graph level round-trips for ALL
-   well-formed inputs (tensors, value-info with nested types/shapes/denotations, and — relative to
-   the nested graphs — attributes of every kind and nodes in a scope stack).
-   MISSING stages: graph/scoping (the initializer, declare-outputs, node and output loops of
-   _deserialize_graph against the emission rules of serialize_graph_into, incl. value-info for
-   initializers and the quantization annotations), function, model.  For these the statement is
-   validated per generated proto inside Coq (case files: wf p -> norm (roundtrip p) = norm p) and by the
-   correspondence with the implementation, not proved. *)
-Theorem C02_roundtrip_partial :
-  (forall t : TensorP, wf_tensor t = true ->
-     exists q, roundtrip_tensor t = Ok q /\ norm_tensor q = norm_tensor t)
-  /\ (forall vi : VInfoP, wf_vinfo vi = true ->
-     exists q, roundtrip_vinfo vi = Ok q /\ norm_vinfo q = norm_vinfo vi)
-  /\ (forall t : TypeP, wf_type t = true ->
-     exists q, roundtrip_type t = Ok q /\ norm_type q = norm_type t).
+(* Stage 6.  Graphs, for every nesting depth: scoped name tables, "initializer for an input", node outputs
+   declared before the nodes are read (subgraphs may capture later outer values), value-info application
+   and the emission rule _should_create_value_info_for_value, value-info added/completed for initializers,
+   quantization annotations (each exactly once), pass-through inputs, metadata.  Stated for any scope stack:
+   deserialization with fuel S n for every n >= the nesting depth, serialization with the same fuel. *)
+Theorem C02_graph_scoping :
+  forall n g allow_dev visible outer irv,
+  (gdepth g <= n)%nat -> wf_graph allow_dev visible g = true ->
+  Forall scope_ok outer -> (forall k, In k visible -> visible_in outer k) -> irv_allows allow_dev irv ->
+  exists ig, deser_graph (S n) outer g = Ok ig
+             /\ exists q, ser_graph (S n) irv ig = Ok q /\ norm_graph q = norm_graph g.
+Proof. exact graph_roundtrip_fuel. Qed.
+Print Assumptions C02_graph_scoping.
+
+Theorem C02_graph_roundtrip :
+  forall g : GraphP, wf_graph true [] g = true ->
+  exists q, roundtrip_graph g = Ok q /\ norm_graph q = norm_graph g.
 Proof.
-  split; [exact C02_tensor_fields|]. split; [exact C02_value_info|].
-  intros t H. destruct (type_roundtrip t H) as (ty & sh & H1 & H2 & H3).
-  exists (ser_type_shape ty sh). unfold roundtrip_type. rewrite H2, H1. split; [reflexivity | exact H3].
+  intros g H.
+  destruct (graph_roundtrip_fuel (gdepth g) g true [] [] None (le_n _) H (Forall_nil _)
+              (fun k Hk => match Hk with end) (fun _ => I)) as (ig & Hd & q & Hs & Hn).
+  exists q. split; [|exact Hn]. unfold roundtrip_graph, deser_graph_top, ser_graph_top. rewrite Hd. cbn [res_bind].
+  pose proof (deser_graph_depth _ _ _ _ Hd) as Hdep.
+  rewrite <- (ser_graph_fuel (S (gdepth g)) None ig Hdep). exact Hs.
 Qed.
-Print Assumptions C02_roundtrip_partial.
+Print Assumptions C02_graph_roundtrip.
+
+(* Stage 7.  Model-local functions: overloads, attribute parameters with and without defaults, reference
+   attributes in the body, value_info (IR >= 10) incl. function inputs, opset imports, metadata; the
+   value-infos an IR < 10 model would move to the main graph are none for a well-formed function. *)
+Theorem C02_function_roundtrip :
+  forall (f : FunctionP) allow_dev irv (n fuel' : nat),
+  wf_function allow_dev (FUNCTION_VALUE_INFO_SUPPORTED_VERSION <=? irv) f = true ->
+  (fdepth f <= S n)%nat -> (S n <= fuel')%nat -> irv_allows allow_dev (Some irv) ->
+  exists fn, deser_function (S n) f = Ok fn
+             /\ exists q, ser_function fuel' irv fn = Ok (q, []) /\ norm_function q = norm_function f.
+Proof.
+  intros f allow_dev irv n fuel' Hw Hd Hf Hi.
+  exact (function_roundtrip_fuel f allow_dev _ irv n fuel' Hw Hd Hf Hi eq_refl).
+Qed.
+Print Assumptions C02_function_roundtrip.
+
+(* Stage 8 = the principal theorem.  Models: IR version 3..13, opset imports (a dict), producer fields,
+   model_version, doc string, metadata, the main graph, the functions table, device configurations at
+   IR >= 11. *)
+Theorem C02_model_roundtrip :
+  forall p : ModelP, wf_model p = true ->
+  exists q, roundtrip_model p = Ok q /\ norm_model q = norm_model p.
+Proof.
+  intros p H. destruct (model_roundtrip_fuel p H) as (im & Hd & q & Hs & Hn).
+  exists q. split; [|exact Hn]. unfold roundtrip_model, deser_model. rewrite Hd. exact Hs.
+Qed.
+Print Assumptions C02_model_roundtrip.
+
+Theorem C02_roundtrip :
+  forall p : ModelP, wf_model p = true ->
+  exists q, roundtrip_model p = Ok q /\ norm_model q = norm_model p.
+Proof. exact C02_model_roundtrip. Qed.
+Print Assumptions C02_roundtrip.
 
 (* wf is satisfiable by a non-trivial model: a graph with an initializer, a node with a subgraph that
    captures an outer value, a trailing empty output and metadata (evaluated, and its round trip checked). *)
